@@ -19,6 +19,26 @@ pub struct Recorded {
     pub cfgs: Vec<(usize, Cfg)>,
     /// write counter after the workload (fresh values continue from here)
     pub counter: u64,
+    /// concurrent workloads only: per client thread its writes in program order as (journal length
+    /// at entry, journal length at return, items). The threads write disjoint key groups.
+    pub conc: Vec<Vec<(usize, usize, Items)>>,
+    /// concurrent workloads only: at least one group commit merged the batches of several writers
+    pub group_commit: bool,
+}
+
+pub type Items = Vec<(Vec<u8>, Option<Vec<u8>>)>;
+
+fn apply_items(model: &mut Model, items: &Items) {
+    for (k, v) in items {
+        match v {
+            Some(v) => {
+                model.insert(k.clone(), v.clone());
+            }
+            None => {
+                model.remove(k);
+            }
+        }
+    }
 }
 
 fn apply_write(
@@ -67,6 +87,8 @@ pub fn record(case: &Case) -> Result<Recorded, String> {
         states: vec![Model::new()],
         cfgs: vec![(0, case.cfg)],
         counter: 0,
+        conc: vec![],
+        group_commit: false,
     };
     let mut model = Model::new();
     let mut cfg = case.cfg;
@@ -139,10 +161,16 @@ pub fn record(case: &Case) -> Result<Recorded, String> {
 impl Recorded {
     /// Number of batches acknowledged once the first `k` journal entries are durable.
     pub fn acked(&self, k: usize) -> usize {
+        if !self.conc.is_empty() {
+            return self.conc.iter().map(|t| t.iter().take_while(|(_, a, _)| *a <= k).count()).sum();
+        }
         self.spans.iter().take_while(|(_, a)| *a <= k).count()
     }
     /// Acceptable states after a crash that kept the first `k` entries (`partial`: entry k is torn).
     pub fn acceptable(&self, k: usize, partial: bool) -> Vec<Model> {
+        if !self.conc.is_empty() {
+            return self.acceptable_conc(k, partial);
+        }
         let a = self.acked(k);
         let mut out = vec![self.states[a].clone()];
         if a < self.spans.len() {
@@ -153,6 +181,39 @@ impl Recorded {
         }
         out
     }
+    /// Concurrent workload: every thread contributes its acknowledged prefix; the write a thread had
+    /// in flight (entered before the crash point, not yet returned) is there completely or not at
+    /// all, independently per thread (the threads own disjoint keys, so the union is well defined
+    /// whatever order the database gave the batches).
+    fn acceptable_conc(&self, k: usize, partial: bool) -> Vec<Model> {
+        let mut base = Model::new();
+        let mut maybes: Vec<&Items> = vec![];
+        for t in &self.conc {
+            let a = t.iter().take_while(|(_, r, _)| *r <= k).count();
+            for (_, _, items) in &t[..a] {
+                apply_items(&mut base, items);
+            }
+            if let Some((b, _, items)) = t.get(a) {
+                if *b < k || (partial && *b <= k) {
+                    maybes.push(items);
+                }
+            }
+        }
+        let mut out: Vec<Model> = vec![];
+        for mask in 0u32..(1 << maybes.len()) {
+            let mut m = base.clone();
+            for (i, items) in maybes.iter().enumerate() {
+                if mask & (1 << i) != 0 {
+                    apply_items(&mut m, items);
+                }
+            }
+            if !out.contains(&m) {
+                out.push(m);
+            }
+        }
+        out
+    }
+
     pub fn cfg_at(&self, k: usize) -> Cfg {
         let mut c = self.cfgs[0].1;
         for (pos, cfg) in &self.cfgs {
@@ -162,6 +223,141 @@ impl Recorded {
         }
         c
     }
+}
+
+/// Operations of one client thread of a concurrent crash workload (keys are indices into the
+/// thread's own key group).
+#[derive(Clone, Debug, Serialize, Deserialize, PartialEq, Eq, Hash)]
+pub enum WOp {
+    Put(u8, Val),
+    Del(u8),
+    Batch(Vec<(u8, Option<Val>)>),
+    Flush,
+}
+
+/// 2-3 writer threads over disjoint key groups on one database, with schedule directives that hold
+/// writers around the WAL append (so that group commits form) or the background thread.
+#[derive(Clone, Debug, Serialize, Deserialize, PartialEq, Eq, Hash)]
+pub struct ConcWl {
+    pub cfg: Cfg,
+    pub programs: Vec<Vec<WOp>>,
+    pub directives: Vec<crate::sched::Directive>,
+    pub sync_mask: u32,
+}
+
+pub const CONC_GROUP: u8 = 4;
+
+pub fn conc_key(t: usize, j: u8) -> Vec<u8> {
+    match (t, j % CONC_GROUP) {
+        (0, 0) => vec![],
+        (1, 0) => vec![0xff, 0xff],
+        (t, j) => format!("w{t}-key{j}").into_bytes(),
+    }
+}
+
+pub fn conc_universe(wl: &ConcWl) -> Vec<Vec<u8>> {
+    let mut u = vec![];
+    for t in 0..wl.programs.len() {
+        for j in 0..CONC_GROUP {
+            u.push(conc_key(t, j));
+        }
+    }
+    u.sort();
+    u
+}
+
+/// Run a concurrent workload on a journalling MemFs.
+pub fn record_conc(wl: &ConcWl) -> Result<Recorded, String> {
+    use std::sync::atomic::Ordering;
+    let fs = Arc::new(MemFs::new(true));
+    let db = Arc::new(DB::open(options(&fs, &wl.cfg)).map_err(|e| format!("open failed: {e:?}"))?);
+    let n = wl.programs.len();
+    let st = crate::sched::SchedState::new(wl.directives.clone(), n);
+    let g0 = raindb::verif::counter(raindb::verif::Counter::GroupCommitMulti);
+    crate::sched::install(st.clone());
+    let barrier = Arc::new(std::sync::Barrier::new(n));
+    let mut handles = vec![];
+    for (ti, prog) in wl.programs.iter().enumerate() {
+        let (db, fs, st, barrier, prog, mask) = (db.clone(), fs.clone(), st.clone(), barrier.clone(), prog.clone(), wl.sync_mask);
+        handles.push(
+            std::thread::Builder::new()
+                .name(format!("crash-client-{ti}"))
+                .spawn(move || -> Result<Vec<(usize, usize, Items)>, String> {
+                    crate::sched::set_role(ti as i32);
+                    barrier.wait();
+                    let mut out = vec![];
+                    let mut r: Result<(), String> = Ok(());
+                    for (oi, op) in prog.iter().enumerate() {
+                        let id = |sub: u64| (ti as u64 + 1) * 1_000_000 + oi as u64 * 100 + sub;
+                        let items: Items = match op {
+                            WOp::Put(j, v) => vec![(conc_key(ti, *j), Some(make_value(id(0), *v)))],
+                            WOp::Del(j) => vec![(conc_key(ti, *j), None)],
+                            WOp::Batch(b) => b.iter().enumerate().map(|(i, (j, v))| (conc_key(ti, *j), v.map(|v| make_value(id(1 + i as u64), v)))).collect(),
+                            WOp::Flush => {
+                                db.compact_range(Some(RESERVED_LO)..Some(RESERVED_HI));
+                                continue;
+                            }
+                        };
+                        let mut b = Batch::new();
+                        for (k, v) in &items {
+                            match v {
+                                Some(v) => {
+                                    b.add_put(k.clone(), v.clone());
+                                }
+                                None => {
+                                    b.add_delete(k.clone());
+                                }
+                            }
+                        }
+                        let wo = WriteOptions { synchronous: (mask >> ((5 * ti + oi) % 32)) & 1 == 1 };
+                        let entry = fs.journal_len();
+                        if let Err(e) = db.apply(wo, b) {
+                            r = Err(format!("write failed in a fault-free workload: {e:?}"));
+                            break;
+                        }
+                        let ret = fs.journal_len();
+                        out.push((entry, ret, items));
+                    }
+                    st.done[ti].store(true, Ordering::SeqCst);
+                    r.map(|_| out)
+                })
+                .unwrap(),
+        );
+    }
+    let mut conc = vec![];
+    let mut err: Option<String> = None;
+    for (i, h) in handles.into_iter().enumerate() {
+        match h.join() {
+            Ok(Ok(v)) => conc.push(v),
+            Ok(Err(e)) => {
+                err = Some(e);
+                conc.push(vec![]);
+            }
+            Err(_) => {
+                st.done[i].store(true, Ordering::SeqCst);
+                err = Some(format!("client thread {i} panicked inside a database call"));
+                conc.push(vec![]);
+            }
+        }
+    }
+    crate::sched::uninstall();
+    if let Some(e) = err {
+        return Err(e);
+    }
+    db.verif_wait_idle(Duration::from_secs(600));
+    let group_commit = raindb::verif::counter(raindb::verif::Counter::GroupCommitMulti) > g0;
+    drop(db);
+    let mut spans: Vec<(usize, usize)> = conc.iter().flatten().map(|(b, r, _)| (*b, *r)).collect();
+    spans.sort_by_key(|s| s.1);
+    Ok(Recorded {
+        journal: fs.journal(),
+        spans,
+        states: vec![],
+        cfgs: vec![(0, wl.cfg)],
+        counter: 9_000_000,
+        conc,
+        group_commit,
+    })
 }
 
 fn scan(db: &DB) -> Result<Vec<(Vec<u8>, Vec<u8>)>, String> {
